@@ -7,6 +7,7 @@ import (
 	"fmt"
 	"net/url"
 	"strings"
+	"unicode"
 
 	"github.com/google/pprof/profile"
 )
@@ -229,6 +230,9 @@ func c09ScriptLine(r *Rng, sampleTypes []string, big, ctl bool) string {
 		return s
 	}
 	var line string
+	if r.Chance(15) { // a mutated valid command / assignment / help request
+		return c09CleanLine(c09MutatedValid(r), ctl)
+	}
 	switch r.Intn(17) {
 	case 16: // text report into a file: the legend carries the parsed filters
 		toks := []string{r.Pick([]string{"top", "text", "tree", "top5", "tree20", "tags", "peek main"})}
@@ -310,7 +314,119 @@ func c09ScriptLine(r *Rng, sampleTypes []string, big, ctl bool) string {
 	default:
 		line = c09Noise(r, 40, ctl)
 	}
+	// mutation operators over the grammar's lines (case, abbreviations, separators, redirections, …)
+	if r.Chance(20) {
+		line = c09MutateLine(r, line)
+	}
 	return c09CleanLine(line, ctl)
+}
+
+// c09ValidLines: plain valid commands, assignments and help requests — the seeds of the mutation
+// operators (every one of them is answered with a report, an option change or a help text).
+var c09ValidLines = []string{"top", "top 5", "top -cum main", "top10", "text", "tree", "tree 3 main", "traces", "tags", "tags k", "peek main", "peek .",
+	"raw", "comments", "dot", "list main", "disasm main", "callgrind", "proto", "topproto", "svg", "weblist main", "web", "kcachegrind",
+	"top >out", "tree > out2", "text main -foo >o.txt", "help", "help top", "help nodecount", "help cum", "o", "options",
+	"focus=main", "ignore=foo", "granularity=lines", "sort=cum", "nodecount=5", "nodefraction=0.1", "sample_index=0", "mean=1", "mean", "trim=false",
+	"call_tree", "cum", "flat", "lines", "files=true", "tagfocus=1:", "unit=ms", "hide=x", "show=.", "divide_by=2", ":"}
+
+// c09MutateLine applies one or two command-line mutation operators to a line: case changes of the
+// command / option name (upper, title, random mixed, unicode case variants), digit abbreviations,
+// separator noise, redirections and pipes with odd targets, names that are prefixes, suffixes or
+// concatenations of command names, mixed-case `help <cmd>`.
+func c09MutateLine(r *Rng, line string) string {
+	// split off the name (first token, up to '=' or white space), keeping what follows
+	lead := line[:len(line)-len(strings.TrimLeft(line, " \t"))]
+	rest := line[len(lead):]
+	end := strings.IndexAny(rest, " \t=")
+	if end < 0 {
+		end = len(rest)
+	}
+	name, tail := rest[:end], rest[end:]
+	mixed := func(s string) string {
+		b := []byte(s)
+		for i := range b {
+			if r.Bool() {
+				b[i] = byte(unicode.ToUpper(rune(b[i])))
+			}
+		}
+		return string(b)
+	}
+	caseOp := func(s string) string {
+		switch r.Intn(6) {
+		case 0:
+			return strings.ToUpper(s)
+		case 1:
+			if s == "" {
+				return s
+			}
+			return strings.ToUpper(s[:1]) + s[1:]
+		case 2, 3:
+			return mixed(s)
+		case 4: // unicode letters whose lower/upper case folds onto ASCII letters
+			return strings.NewReplacer("s", "ſ", "i", "İ", "k", "\u212a", "I", "ı").Replace(s)
+		default:
+			return strings.ToUpper(s[:len(s)/2]) + s[len(s)/2:]
+		}
+	}
+	for n := 1 + r.Intn(2); n > 0; n-- {
+		switch r.Intn(9) {
+		case 0, 1, 2:
+			name = caseOp(name)
+		case 3: // mixed-case help / case change of the word after help
+			if strings.EqualFold(name, "help") {
+				name, tail = caseOp(name), " "+caseOp(strings.TrimSpace(tail))
+			} else {
+				name, tail = r.Pick([]string{"help", "HELP", "Help"}), " "+caseOp(name)
+			}
+		case 4: // digit abbreviation
+			name += r.Pick([]string{"10", "5", "0", "007", "99999999999", "1e3", "１０"})
+		case 5: // separators
+			switch r.Intn(4) {
+			case 0:
+				lead = r.Pick([]string{" ", "\t", "   ", " \t "})
+			case 1:
+				tail += r.Pick([]string{" ", "\t", "    ", " \t"})
+			case 2:
+				tail = strings.ReplaceAll(tail, " ", r.Pick([]string{"  ", "\t", " \t ", "   "}))
+			default:
+				tail = strings.Replace(tail, "=", r.Pick([]string{" =", "= ", " = ", "\t=\t", "=="}), 1)
+			}
+		case 6: // redirections and pipes with odd targets
+			tail += r.Pick([]string{" >", " > ", " >>x", " >|x", " | less", " |", "|x", " > .", " > ..", " > /", " >/dev/null", " > /dev/full", " >-", " > \"q\"",
+				" > a/b/c", " >" + strings.Repeat("n", 300), " > ~", " >x >y", " > > x", " 2>&1", " >x|y", " <in", " > ../up"})
+		case 7: // prefixes, suffixes, concatenations of command names
+			other := c09Commands[r.Intn(len(c09Commands))]
+			switch r.Intn(5) {
+			case 0:
+				if len(name) > 1 {
+					name = name[:1+r.Intn(len(name)-1)]
+				}
+			case 1:
+				if len(name) > 1 {
+					name = name[1+r.Intn(len(name)-1):]
+				}
+			case 2:
+				name += other
+			case 3:
+				name = other + name
+			default:
+				name += r.Pick([]string{"s", "_", ".", "-", "x", "proto", "list"})
+			}
+		default: // case change of the first argument / value as well
+			f := strings.Fields(tail)
+			if len(f) > 0 {
+				tail = strings.Replace(tail, f[0], caseOp(f[0]), 1)
+			} else {
+				name = caseOp(name)
+			}
+		}
+	}
+	return lead + name + tail
+}
+
+// c09MutatedValid: a valid line with mutation operators applied (always at least one).
+func c09MutatedValid(r *Rng) string {
+	return c09MutateLine(r, c09ValidLines[r.Intn(len(c09ValidLines))])
 }
 
 // c09CleanLine makes a generated line typeable: no newline; for the real binary (ctl=false) no
